@@ -63,6 +63,15 @@ pub fn resolve_align(
     }
 
     
+    if align.align_size > asm::resolver::MAX_POSITION
+    {
+        report.error_span(
+            "value is out of supported range",
+            ast_align.expr.span());
+        
+        return Err(());
+    }
+
     if ctx.is_last_iteration
     {
         if align.align_size == 0
